@@ -184,7 +184,7 @@ GHOST static void cond_final(void) {
     vs_label_add("cond_signals_with_waiter", c_signals_with_waiter);
     vs_label_add("cond_unlocked_signals", c_unlocked_signals);
     vs_label_add("cond_rewaits", c_rewaits);
-    if (c_signals_with_waiter > 0 || c_O > 0) vs_label_add("nontrivial", 1);
+    if (c_signals_with_waiter > 0 || c_O > 0) rt_nontrivial("cond");
   }
   vs_rt_exit();
 }
@@ -314,7 +314,7 @@ GHOST static void join_final(void) {
     vs_label_add("join_joiner_first", j_joiner_first);
     vs_label_add("join_target_first", j_target_first);
     vs_label_add("tryjoin_fail", j_try_fail);
-    if (j_joiner_first + j_target_first + j_try_fail > 0) vs_label_add("nontrivial", 1);
+    if (j_joiner_first + j_target_first + j_try_fail > 0) rt_nontrivial("join");
   }
   vs_rt_exit();
 }
